@@ -805,6 +805,7 @@ package template
 //@   requires !isnil(t)
 //@   ensures fixpoint: r.state != stateError ==> namedlike(true, "etbok", c, t) || namedlike(true, "etbok", namedlike(c, "etb", c, t), t)
 //@   ensures first: namedlike(true, "etbok", c, t) ==> identical(r, namedlike(c, "etb", c, t))
+//@   ensures memo: r.state != stateError ==> haskeym(e.output, ttname(t)) && identical(e.output[ttname(t)], r)
 //@   ensures treesfresh: onlyfresh("TT_Template.Tree parse_Tree.Name#b parse_Tree.Name#o parse_Tree.Name#l")
 //@   ensures derivedok: forallkey(w, haskeym(e.derived, w) ==> !isnil(e.derived[w]))
 //@   ensures editkeys: forallref(p, haskeym(e.actionNodeEdits, p) || haskeym(e.templateNodeEdits, p) || haskeym(e.textNodeEdits, p) ==> !isnil(p))
@@ -835,7 +836,7 @@ package template
 //@   option modifies @ANALYSISMAPS @DERIVEDTREES
 //@   requires escmaps: !isnil(e.output) && !isnil(e.derived) && !isnil(e.called) && !isnil(e.actionNodeEdits) && !isnil(e.templateNodeEdits) && !isnil(e.textNodeEdits)
 //@   ensures named: identical(r, namedlike(r, "esclist", c, n))
-//@   ensures rejected: !ok ==> onlyfresh("map[seq]opaque#dom map[seq]opaque#val map[seq]ref:TT_Template#dom map[seq]ref:TT_Template#val map[seq]bool#dom map[seq]bool#val map[int]opaque#dom map[int]opaque#val")
+//@   ensures rejected: !ok ==> onlyfresh("map[seq]box:context#dom map[seq]box:context#val map[seq]ref:TT_Template#dom map[seq]ref:TT_Template#val map[seq]bool#dom map[seq]bool#val map[int]opaque#dom map[int]opaque#val")
 //@   ensures treesfresh: onlyfresh("TT_Template.Tree parse_Tree.Name#b parse_Tree.Name#o parse_Tree.Name#l")
 //@   loop 1
-//@     invariant copyintofresh: onlyfresh("map[seq]opaque#dom map[seq]opaque#val")
+//@     invariant copyintofresh: onlyfresh("map[seq]box:context#dom map[seq]box:context#val")
